@@ -54,7 +54,10 @@ invisible here by construction -- that is C07's subject.
 
 VERIF_SEED: the quick tier enumerates the full product projection x rotation x parity x frame (96 WCS)
 and pairs scale and crval with them cyclically; the seed only shifts the phase of that pairing.  The
-thorough tier crosses the full 6-axis WCS product (1152) with every geometry and centre and the two
+thorough tier crosses the full 6-axis WCS product for ICRS / FK5 / Galactic (864 WCS) plus FK4 x projection
+x rotation x scale x parity with crval paired cyclically (96 WCS; a FK4 state costs five times the others
+because astropy runs its FK4 -> FK4 self-transformation in every world_to_pixel, and the frame is opaque to
+the library) with every geometry and centre and the two
 "diagonal" (include, decoration) variants -- that part does not depend on the seed -- and crosses the
 two remaining (include, decoration) variants with the 96-WCS sub-lattice of the quick tier (phase =
 seed).  Nothing is random.
@@ -89,7 +92,7 @@ BOUNDS = {
              '{2.8e-6,1e-4,1e-2,0.1 deg/px} and crval {(40,20),(0,0),(266,-29)} paired cyclically (phase = VERIF_SEED); '
              '23 geometry variants x centres {crpix, +(250.25,150.5)} x {(include absent, no meta), (include False, '
              'meta+visual)} = 92 region specs',
-    'thorough': 'main: 1152 WCS = full product of the six axes x 23 geometry variants x 3 centres {crpix, +(30.25,-40.5), '
+    'thorough': 'main: 960 WCS = full product of the six axes for ICRS/FK5/Galactic (864) + FK4 x projection x rotation x scale x parity with crval paired cyclically (96) x 23 geometry variants x 3 centres {crpix, +(30.25,-40.5), '
                 '+(250.25,150.5)} x {(include absent, no meta), (include False, meta+visual)} = 138 region specs; '
                 'off-diagonal: the 96 WCS of the quick sub-lattice x 23 x 3 x {(include False, no meta), (include absent, '
                 'meta+visual)}, so include x decoration is a full product there (the handling of meta/visual does not '
@@ -142,12 +145,16 @@ def wcs_specs(tier, seed):
                         cv = CRVALS[(ir + ipa + ifr + seed) % len(CRVALS)]
                         out.append(W.wspec(proj, rot, sc, flip, fr, cv))
         return out
-    for proj in PROJS:
-        for rot in ROTS:
-            for sc in SCALES:
-                for flip in PARITY:
+    for ip, proj in enumerate(PROJS):
+        for ir, rot in enumerate(ROTS):
+            for isc, sc in enumerate(SCALES):
+                for ipa, flip in enumerate(PARITY):
                     for fr in FRAME_NAMES:
-                        for cv in CRVALS:
+                        # FK4: every world_to_pixel runs astropy's FK4 -> FK4 self-transformation (e-terms), one state
+                        # costs ~95 ms instead of ~20 ms; the frame is opaque to the library, so FK4 is crossed with
+                        # projection x rotation x scale x parity fully and with crval cyclically
+                        cvs = CRVALS if fr != 'fk4' else [CRVALS[(ip + ir + isc + ipa) % len(CRVALS)]]
+                        for cv in cvs:
                             out.append(W.wspec(proj, rot, sc, flip, fr, cv))
     return out
 
@@ -678,7 +685,7 @@ def shards(tier, seed):
     allw = wcs_specs(tier, seed)
     slow = [ws for ws in allw if ws['frame'] == 'fk4']
     fast = [ws for ws in allw if ws['frame'] != 'fk4']
-    out = [{'part': 'main', 'cases': slow[k::144]} for k in range(144)]
+    out = [{'part': 'main', 'cases': slow[k::96]} for k in range(96)]
     out += [{'part': 'offdiag', 'cases': part} for part in
             [sorted(wcs_specs('quick', seed), key=lambda v: v['frame'] != 'fk4')[k::32] for k in range(32)]]
     out += [{'part': 'main', 'cases': fast[k::144]} for k in range(144)]
